@@ -99,6 +99,11 @@ pub fn cats_of(node_id: u64) -> Vec<u32> {
 /// `crypto`: every instance of the test crypto produces the same "random" key sequence - fabrics that must have different
 /// roots have to be made from ONE instance.
 pub fn make_fabric_ex<C: Crypto>(crypto: C, node_ids: &[u64], fabric_id: u64, ipk: [u8; 16]) -> FabricKit {
+    make_fabric_v(crypto, node_ids, fabric_id, ipk, None)
+}
+
+/// `special`: this node's NOC gets this validity period instead of "for ever"
+pub fn make_fabric_v<C: Crypto>(crypto: C, node_ids: &[u64], fabric_id: u64, ipk: [u8; 16], special: Option<(u64, rs_matter::cert::gen::Validity)>) -> FabricKit {
     let mut rcac_buf = [0u8; MAX_CERT_TLV_AND_ASN1_LEN];
     let mut rcac_gen = RcacGenerator::new(&mut rcac_buf);
     let (rcac_priv, rcac) = rcac_gen.generate(&crypto, fabric_id, VALID_FOREVER).unwrap();
@@ -112,7 +117,11 @@ pub fn make_fabric_ex<C: Crypto>(crypto: C, node_ids: &[u64], fabric_id: u64, ip
         let csr = sk.csr(&mut csr_buf).unwrap();
         let mut canon = CanonPkcSecretKey::new();
         sk.write_canon(&mut canon).unwrap();
-        let noc = noc_gen.generate(&crypto, csr, *id, &cats_of(*id), VALID_FOREVER).unwrap().to_vec();
+        let validity = match &special {
+            Some((n, v)) if n == id => rs_matter::cert::gen::Validity { not_before: v.not_before, not_after: v.not_after },
+            _ => VALID_FOREVER,
+        };
+        let noc = noc_gen.generate(&crypto, csr, *id, &cats_of(*id), validity).unwrap().to_vec();
         nodes.push((*id, canon, noc));
     }
     FabricKit { rcac: rcac_v, ipk, nodes }
@@ -185,6 +194,9 @@ pub struct Scenario<'v> {
     pub second_fabric: bool,
     pub foreign2: bool,
     pub wrong_ipk2: bool,
+    /// initiator 2's NOC is outside its validity period: "expired" (ended before the node's last known good time) or
+    /// "notyet" (starts in the far future)
+    pub validity2: &'static str,
     /// the device's responders (the application side) do not run for the first `stall_ms` of the run: what arrives
     /// meanwhile is only seen by the transport (accept time-outs)
     pub stall_ms: u64,
@@ -203,7 +215,13 @@ pub fn run_scenario(sc: &Scenario<'_>, tr: &mut Trace) -> End {
     ];
     let mut fab_idx = [None; 3];
     if sc.with_fabric || sc.fill_busy + sc.fill_idle > 0 {
-        let kit = make_fabric_ex(&crypto, &[DEV_NODE, 0x1001, 0x1002, 0x1003], 1, [0x44; 16]);
+        // the harness builds rs-matter with a last known good time of 800 000 000 s (Matter epoch)
+        let special = match sc.validity2 {
+            "expired" => Some((0x1002u64, rs_matter::cert::gen::Validity { not_before: 1, not_after: 700_000_000 })),
+            "notyet" => Some((0x1002u64, rs_matter::cert::gen::Validity { not_before: 900_000_000, not_after: 0 })),
+            _ => None,
+        };
+        let kit = make_fabric_v(&crypto, &[DEV_NODE, 0x1001, 0x1002, 0x1003], 1, [0x44; 16], special);
         install_fabric(&dev, &kit, 0);
         for (i, m) in inis.iter().enumerate() {
             if i == 1 && sc.foreign2 {
@@ -595,7 +613,7 @@ pub fn run_scenario(sc: &Scenario<'_>, tr: &mut Trace) -> End {
                 let is_pase = op["op"] == "Pase";
                 let start = json!({"ev": "Start", "i": i, "tag": tagc, "kind": if is_pase { "pase" } else { "case" }, "pass_ok": pass_ok, "cut": op["cut"], "garbled": garbled,
                                    "g_dir": garble.map(|g| if g.0 { "ini" } else { "dev" }).unwrap_or("none"), "g_nth": garble.map(|g| g.1).unwrap_or(0),
-                                   "peer_ok": op["peer"].as_u64().map(|p| p == dev_node_for(i)).unwrap_or(true), "member": !((i == 2) && (sc.foreign2 || sc.wrong_ipk2)),
+                                   "peer_ok": op["peer"].as_u64().map(|p| p == dev_node_for(i)).unwrap_or(true), "member": !((i == 2) && (sc.foreign2 || sc.wrong_ipk2 || !sc.validity2.is_empty())),
                                    "fabric": if i == 3 && sc.second_fabric { 2 } else { 1 }, "held": !op["hold"].is_null(),
                                    "complete": op["cut"].is_null() && op["hold"].is_null() && !op["locked"].as_bool().unwrap_or(false)});
                 mail[i - 1].borrow_mut().push_back(if is_pase { Cmd::Pase { pass: if pass_ok { PASSCODE } else { 11223344 }, tag: tagc, filter, start } } else { Cmd::Case { peer: op["peer"].as_u64().unwrap_or(dev_node_for(i)), tag: tagc, filter, start } });
